@@ -24,6 +24,30 @@ def check(run):
     for q in TEXT_ONLY:
         st = run.explore(f'TR {q}? with a symbolic return value, heapless::Vec<u8, 256> (real Write impl from MIR)', SPEC + ({'query': q, 'maxlen': ml, 'writer': 'heapless'},), 1200 if thorough else 300)
         records.extend(st['records'])
+    # the std writer: MIR of the std-feature build, std::vec::Vec<u8> as the response writer (validated against a replay binary built the same way)
+    from .. import diffcorpus
+    from ..world import World
+    from ..replay import Observer, run_native, native_obs, same
+    import os
+    from .. import build
+    try:
+        run.paths = build.ensure(log=run.log, std=True)
+    except build.BuildError as e:
+        raise Inconclusive('the std-feature build failed: ' + str(e))
+    wstd = World(run.paths['mir_micro_std'], run.paths['mir_vdev'], os.path.join(os.environ.get('VERIF_REPO', '/repo'), 'microscpi', 'src'))
+    obs = Observer(wstd)
+    cases = [{'entry': 'run', 'device': 'TR', 'input': l.hex(), 'cap': 'std'} for l in diffcorpus.HAND_TR]
+    cases += [{'entry': 'run', 'device': 'TR', 'input': m.encode().hex(), 'cap': 'std', 'script': sc} for m, sc in diffcorpus.TR_SCRIPTS]
+    raw = run_native(cases, run.paths['vreplay_std'])
+    for c, js in zip(cases, raw):
+        mine = obs.observe(c)
+        if not same(native_obs(js, c), mine):
+            raise Inconclusive('std-writer translator validation failed on ' + str(c)[:200])
+    cov['differential']['std_writer_cases'] = len(cases)
+    cov['traces_validated_against_impl'] += len(cases)
+    for q in QUERIES:
+        st = run.explore(f'TR {q}? with a symbolic return value, std::vec::Vec<u8> writer (std-feature MIR)', SPEC + ({'query': q, 'maxlen': ml, 'writer': 'std'},), 1200 if thorough else 300, std=True)
+        records.extend(st['records'])
     st = run.explore('no-output cases: command, handler error (custom / unit), rejected argument, undefined header, query on a command', NOOUT + ({},), 300)
     records.extend(st['records'])
     viol = {}
@@ -42,7 +66,8 @@ def check(run):
                      'integers': 'one symbolic bit-vector per value (all values at once); the decimal text itself is a token: digits are core::fmt\'s business and are compared on concrete extremes in the differential corpus',
                      'floats': 'all bit patterns, split by z3 floating point into NaN / +inf / -inf / finite; finite text is a token (trusted float Display); concrete samples replayed natively',
                      'containers': 'tuples of 2-4, nested tuple, slices / heapless::Vec of 0..3 elements',
-                     'outside': 'longer strings; the std Vec writer (std feature; its write_* are one-liners); responses that do not fit (partial bytes, see DESIGN section 4); non-ASCII strings (no byte of them is a quote)'}
+                     'writers': 'pass-through (records calls), heapless::Vec<u8,256> (real impl from MIR, text-only types), std::vec::Vec<u8> (real impl from the MIR of the std-feature build)',
+                     'outside': 'longer strings; responses that do not fit (partial bytes, see DESIGN section 4); non-ASCII strings (no byte of them is a quote)'}
     run.evidence['assumptions'] = ['integer and float Display of core are trusted (decimal text of the value); checked: the value is passed unmodified and unflagged, exactly once',
                                    'reference encoder/decoder of IEEE 488.2 response data in mirsym/checks/response_level.py']
     return {'violations': [dict(v, property='C04') for _, v in sorted(viol.items())], 'exhaustive': True}
@@ -61,7 +86,10 @@ def confirm(run, v):
             tok = v['script']['0'][1]
             if 'err:' in tok and '?' in tok or tok == 'err:custom':
                 return None, {'note': 'error-typed return value not scriptable natively'}
-            o = run.native([{'entry': 'run', 'device': 'TR', 'input': v['input'], 'cap': None if v.get('writer') == 'pass' else 256, 'script': v['script']}], release=rel)[0]
+            if v.get('writer') == 'std':
+                o = run.native([{'entry': 'run', 'device': 'TR', 'input': v['input'], 'cap': 'std', 'script': v['script']}], std=True)[0]
+            else:
+                o = run.native([{'entry': 'run', 'device': 'TR', 'input': v['input'], 'cap': None if v.get('writer') == 'pass' else 256, 'script': v['script']}], release=rel)[0]
             if v['rule'] in ('PANIC', 'HANG'):
                 ok = o.get('panic') is not None
             else:
